@@ -335,3 +335,67 @@ def owner_stores(repo, pid="C06"):
                 if isinstance(sub, ast.Attribute) and sub.attr == "_parent" and isinstance(sub.ctx, ast.Store) and not qual.endswith("Column.__init__"):
                     out.append({"name": f"{pid}:site:{m.name}:{qual}:_parent=", "status": "refuted", "detail": "owner set replaced outside the constructor", "clause": "owner_sets_only_grow", "backend": "syntactic scan", "kind": "K3-site"})
     return out
+
+
+def _has_letter(s):
+    return isinstance(s, str) and any(ch.isalpha() for ch in s)
+
+
+def _lit_strings(node):
+    if isinstance(node, ast.Constant) and isinstance(node.value, str):
+        return [node.value]
+    if isinstance(node, (ast.List, ast.Tuple, ast.Set)):
+        return [e.value for e in node.elts if isinstance(e, ast.Constant) and isinstance(e.value, str)]
+    return []
+
+
+RAW_TEXT_ASSUMED = {
+    # (module, function, expression): why a case-sensitive comparison of source text is right there
+}
+POSITIONAL_ASSUMED = {
+    ("sqllineage.core.parser.sqlfluff.analyzer", "SqlFluffLineageAnalyzer._list_specific_statement_segment"): "G5: the children of the file / batch / statement node are statements or separators; the first child of a `statement` is the typed statement itself",
+    ("sqllineage.core.parser.sqlfluff.analyzer", "SqlFluffLineageAnalyzer.analyze"): "G5: first child of a statement node",
+    ("sqllineage.core.parser.sqlfluff.utils", "is_subquery"): "G6: the first child of a from_expression_element is its table expression (never negligible)",
+    ("sqllineage.core.parser.sqlfluff.utils", "extract_as_and_target_segment"): "applied to list_child_segments(...) (negligible children already removed)",
+    ("sqllineage.core.parser.sqlfluff.utils", "extract_identifier"): "applied to list_child_segments(...)",
+    ("sqllineage.core.parser.sqlfluff.utils", "extract_column_qualifier"): "applied to list_child_segments(...)",
+    ("sqllineage.core.parser.sqlfluff.models", "SqlFluffTable.of"): "G7: an object reference has no negligible children between its dotted parts (all probed dialects except tsql, see D17)",
+    ("sqllineage.core.parser.sqlfluff.extractors.base", "BaseExtractor._add_dataset_from_expression_element"): "applied to list_child_segments(...) filtered lists",
+}
+
+
+def layout_discipline(repo, pid="C07"):
+    """(a) keyword discipline: segment text is compared with a literal that contains a letter only through raw_upper /
+    .upper() / .lower() / a normalised name; (b) positional discipline: a constant subscript on a raw `.segments` sequence
+    is an enumerated, justified site (everything else indexes filtered lists)."""
+    out = []
+    for m in sorted(repo.modules.values(), key=lambda x: x.name):
+        if m.name in repo.ghost or ".parser." not in m.name and not m.name.endswith(".parser"):
+            continue
+        for qual, fn in _functions(m):
+            for sub in ast.walk(fn):
+                if isinstance(sub, ast.Compare):
+                    sides = [sub.left] + list(sub.comparators)
+                    lits = [s for x in sides for s in _lit_strings(x)]
+                    if not any(_has_letter(s) for s in lits):
+                        continue
+                    for x in sides:
+                        if isinstance(x, ast.Attribute) and x.attr in ("raw", "value", "normalized") and not _lit_strings(x):
+                            text = ast.unparse(sub)[:70]
+                            name = f"{pid}:site:{m.name}:{qual}:{text}"
+                            if x.attr == "normalized":
+                                out.append({"name": name, "status": "proved", "detail": "sqlparse `normalized` is the upper-cased keyword text", "clause": "keywords_compared_case_insensitively", "backend": "syntactic scan", "kind": "K3-site"})
+                            elif all(s == s.lower() and s == s.upper() for s in lits if False):
+                                pass
+                            elif (m.name, qual, text) in RAW_TEXT_ASSUMED:
+                                out.append({"name": name, "status": "assumed", "detail": "ASSUMED: " + RAW_TEXT_ASSUMED[(m.name, qual, text)], "clause": "keywords_compared_case_insensitively", "backend": "syntactic scan", "kind": "K3-site"})
+                            else:
+                                out.append({"name": name, "status": "refuted", "detail": f"source text `{ast.unparse(x)}` compared case-sensitively with a literal containing letters", "clause": "keywords_compared_case_insensitively", "backend": "syntactic scan", "kind": "K3-site"})
+                if isinstance(sub, ast.Subscript) and isinstance(sub.value, ast.Attribute) and sub.value.attr == "segments" and ".sqlfluff" in m.name:
+                    idx = ast.unparse(sub.slice)
+                    name = f"{pid}:site:{m.name}:{qual}:{ast.unparse(sub)[:60]}"
+                    if (m.name, qual) in POSITIONAL_ASSUMED:
+                        out.append({"name": name, "status": "assumed", "detail": "ASSUMED shape: " + POSITIONAL_ASSUMED[(m.name, qual)], "clause": "positions_are_taken_on_filtered_children", "backend": "syntactic scan", "kind": "K3-site"})
+                    else:
+                        out.append({"name": name, "status": "refuted", "detail": f"raw positional access `{ast.unparse(sub)[:60]}`: an inserted comment / newline shifts the answer", "clause": "positions_are_taken_on_filtered_children", "backend": "syntactic scan", "kind": "K3-site"})
+    return out
